@@ -95,6 +95,22 @@ class VLoop(asyncio.SelectorEventLoop):
             raise ConnectionRefusedError(111, "vloop: no connector installed")
         return await self.connector(protocol_factory, host, port, ssl, server_hostname)
 
+    def run_in_executor(self, executor, func, *args):
+        """No real threads under virtual time: the job runs on the loop a few iterations later, so other
+        coroutines can interleave with it as they could with a real executor, deterministically."""
+        fut = self.create_future()
+
+        def job():
+            if fut.cancelled():
+                return
+            try:
+                fut.set_result(func(*args))
+            except BaseException as e:  # noqa: BLE001
+                fut.set_exception(e)
+
+        self.call_soon(self.call_soon, self.call_soon, job)
+        return fut
+
     async def getaddrinfo(self, host, port, **kw):  # never resolve for real
         raise OSError("vloop: no DNS")
 
